@@ -81,6 +81,16 @@ def metadata(o):
                 out["fields"] = sorted(_ns_sql(f) for f in o.find_(reg["Field"]))
         except Exception as e:
             out["fields"] = "<exc:%s>" % type(e).__name__
+    if isinstance(o, reg["Table"]):
+        # what the table's own statement shortcuts (t.select / t.update / t.insert) build: the Query class bound to the table
+        try:
+            q = o.select("shortcut_col").where(o.field("shortcut_flag") == True)  # noqa: E712
+            out["shortcut"] = "%s:%s" % (type(q).__name__, str(q))
+        except Exception as e:
+            out["shortcut"] = "<exc:%s>" % type(e).__name__
+    if isinstance(o, reg["QueryBuilder"]):
+        # the number the next automatically aliased subquery would get (sq<n>)
+        out["next_subquery_number"] = getattr(o, "_subquery_count", None)
     return out
 
 
